@@ -1,99 +1,40 @@
 package main
 
-import (
-	"fmt"
-	"strings"
+import "fmt"
 
-	"golang.org/x/tools/go/ssa"
-)
-
-// c19HashLengths: what bcrypt_pbkdf.Key feeds to SHA-512, independent of how
-// the hashing is written (streaming hash.Hash or one-shot Sum512). Key is
-// interpreted (slices by length) for password lengths 1 and 72, salt lengths
-// 1, 16, 59..66 and 100, rounds 1..3 and key lengths that need one and two
-// blocks: the first digest covers exactly len(password) bytes; every block's
-// first round hashes exactly len(salt)+4 bytes (salt | 4-byte counter — a
-// scratch buffer that is too small shows up as a shorter input); every later
-// round hashes exactly the 32 bytes of the previous output; bcryptHash is
-// called once per round; no slice expression leaves its bounds.
-func c19HashLengths(c *Ctx) {
-	const pkg = "ssh/internal/bcrypt_pbkdf"
-	f := c.fn(pkg, "Key")
-	if f == nil {
-		return
-	}
-	pw, salt, rounds, keyLen := f.Params[0], f.Params[1], f.Params[2], f.Params[3]
-	cases, bad := 0, ""
-	for _, pl := range []int64{1, 72} {
-		for _, sl := range []int64{1, 16, 59, 60, 61, 62, 63, 64, 65, 66, 100} {
+// c19HashLengths: what bcrypt_pbkdf.Key feeds to SHA-512 must not depend on
+// how long the salt is relative to any internal buffer (a scratch buffer sized
+// for "typical" salts that truncates salt|counter, a one-shot Sum512 over a
+// stack array, ...). Key is interpreted (c19_sym.go) for password lengths 1 and
+// 72, salt lengths 1, 16, 59..66 (around the SHA-512 digest size) and 100,
+// rounds 1..3 and key lengths that need one and two blocks; for each case the
+// derived key must be the reference term — which fixes every SHA-512 input
+// (password; salt | 4-byte counter per block; the previous 32-byte output per
+// later round) whether the hashing is streaming (hash.Hash) or one-shot —
+// and no index or slice expression may leave its bounds. On a mismatch the
+// SHA-512 inputs are compared to name the first wrong one.
+func c19HashLengths(x *c19Ctx) {
+	T := x.ev.T
+	cases, bad, undec := 0, "", false
+	for _, pl := range []int{1, 72} {
+		for _, sl := range []int{1, 16, 59, 60, 61, 62, 63, 64, 65, 66, 100} {
 			for _, r := range []int64{1, 2, 3} {
 				for _, kl := range []int64{32, 33} {
 					if bad != "" {
 						continue
 					}
-					w := &pathWalker{env: newEnv(), lengths: true, maxSteps: 60000, assumeErrNil: true, opaque: map[string]bool{"bcryptHash": true}}
-					w.env.bind(pw, pl)
-					w.env.bind(salt, sl)
-					w.env.bind(rounds, r)
-					w.env.bind(keyLen, kl)
-					var digests []int64 // input length of each SHA-512 computation, in order
-					cur := int64(0)
-					nb := 0
-					w.onCall = func(w *pathWalker, ci ssa.CallInstruction) string {
-						cc := ci.Common()
-						nm := short(calleeName(cc))
-						switch {
-						case cc.IsInvoke() && cc.Method.Name() == "Reset":
-							cur = 0
-						case cc.IsInvoke() && cc.Method.Name() == "Write":
-							l, ok := w.env.eval(cc.Args[0])
-							if !ok {
-								l = -1000000
-							}
-							cur += l
-						case cc.IsInvoke() && cc.Method.Name() == "Sum":
-							digests = append(digests, cur)
-							if v, ok := ci.(ssa.Value); ok {
-								w.env.bind(v, 64)
-							}
-						case nm == "crypto/sha512.Sum512":
-							l, ok := w.env.eval(cc.Args[0])
-							if !ok {
-								l = -1
-							}
-							digests = append(digests, l)
-						case strings.HasSuffix(nm, "bcrypt_pbkdf.bcryptHash"):
-							nb++
-						}
-						return ""
-					}
-					end := w.walk(f.Blocks[0], nil)
 					cases++
-					id := fmt.Sprintf("password %d bytes, salt %d bytes, rounds %d, keyLen %d", pl, sl, r, kl)
-					if end != "return" {
-						bad = id + ": evaluation ended with " + end + " " + w.why
-						continue
-					}
-					blocks := (kl + 31) / 32
-					want := []int64{pl}
-					for b := int64(0); b < blocks; b++ {
-						want = append(want, sl+4)
-						for i := int64(2); i <= r; i++ {
-							want = append(want, 32)
+					var o c19Outcome
+					o, bad, undec = x.against(pl, sl, r, kl)
+					if bad != "" && o.kind == "key" {
+						_, wantH := x.spec(pl, sl, r, kl)
+						if d := T.hashDiff(c19HashNodes(o.trace), wantH); d != "" {
+							bad = c19Case(pl, sl, r, kl) + ": " + d + " (bcrypt_pbkdf hashes the password; per block salt | 4-byte counter, then the 32-byte previous output per further round)"
 						}
-					}
-					if fmt.Sprint(digests) != fmt.Sprint(want) {
-						bad = fmt.Sprintf("%s: SHA-512 input lengths %v, bcrypt_pbkdf requires %v (password; per block salt|counter then the 32-byte previous output per further round)", id, digests, want)
-					}
-					if int64(nb) != blocks*r {
-						bad = fmt.Sprintf("%s: bcryptHash called %d times, expected %d", id, nb, blocks*r)
-					}
-					if w.oob {
-						bad = id + ": a slice expression leaves its bounds"
 					}
 				}
 			}
 		}
 	}
-	c.check(bad == "" && cases == 132, "C19.hash-lengths", "Key SHA-512 inputs", f, fmt.Sprintf("%d (password, salt, rounds, keyLen) cases", cases), bad)
+	x.verdict("C19.hash-lengths", "Key SHA-512 inputs", fmt.Sprintf("%d (password, salt, rounds, keyLen) cases", cases), bad, undec)
 }
